@@ -40,6 +40,7 @@ type c08Scen struct {
 	M    int   `json:"m,omitempty"`
 	Seed int64 `json:"seed,omitempty"`
 	Big  bool  `json:"big,omitempty"`
+	WS   bool  `json:"ws,omitempty"`
 }
 
 func goid() string {
@@ -113,7 +114,7 @@ func c08RunOne(w *tr.Writer, tid int, raw json.RawMessage, c *common) error {
 	if !stress {
 		g = gate
 	}
-	env, err := newSessEnv(w, tid, envOpts{SM: sc.SM, Logger: sc.Logger, Gate: g, FailWrite: sc.FailAt, Partial: sc.Partial})
+	env, err := newSessEnv(w, tid, envOpts{SM: sc.SM, Logger: sc.Logger, Gate: g, FailWrite: sc.FailAt, Partial: sc.Partial, WS: sc.WS})
 	if err != nil {
 		return err
 	}
@@ -316,11 +317,20 @@ func runC08(args []string) error {
 				scens = append(scens, tidScen{tid, b})
 			}
 		}
+		if sc.FailAt == 0 {
+			sc.Logger, sc.Partial, sc.WS = false, false, true
+			b, _ := json.Marshal(sc)
+			tid++
+			scens = append(scens, tidScen{tid, b})
+			sc.WS = false
+		}
 	}
 	rng := rand.New(rand.NewSource(c.seed))
 	for i := 0; i < *stress; i++ {
 		sc := c08Scen{SM: rng.Intn(2) == 0, Logger: rng.Intn(3) == 0, G: 2 + rng.Intn(7), M: 5 + rng.Intn(45), Seed: rng.Int63n(1 << 30), Big: rng.Intn(3) == 0}
-		if rng.Intn(5) == 0 {
+		if rng.Intn(3) == 0 {
+			sc.WS = true // write faults are injected on the TCP transport only
+		} else if rng.Intn(5) == 0 {
 			sc.FailAt = 1 + rng.Intn(sc.G*sc.M)
 			sc.Partial = rng.Intn(2) == 0
 		}
